@@ -435,4 +435,94 @@ of a compile error is present. -/
 def predictCompiles (S : Schema) : Bool :=
   (match stubCheck S with | .ok => true | _ => false) && (compileCauses S).isEmpty
 
+/-! ### Emitted parameter bindings (`prepare_call_parameters`, `trustfall_type_to_rust_type`,
+`field_value_to_rust_type`)
+
+The text of the `let <ident>: <type> = parameters.get("<name>").expect("<msg>").<conversion>;` statement
+emitted per parameter, as a token sequence without layout (the driver and the harness both drop all
+whitespace, the braces prettyplease puts around multi-line closure bodies and its trailing commas).
+Correspondence only: nothing is proved about these texts. -/
+
+inductive Ty where
+  | named (base : Name) (nonNull : Bool)
+  | list (inner : Ty) (nonNull : Bool)
+
+def stripBang (s : Name) : Name × Bool :=
+  match s.getLast? with
+  | some '!' => (s.dropLast, true)
+  | _ => (s, false)
+
+/-- the recursion of both type functions: strip a trailing `!`, then `[`…`]`; `none` = their
+`panic!("invalid Trustfall type started with `[` without matching `]`")`. -/
+def parseTy : Nat → Name → Option Ty
+  | 0, _ => none
+  | fuel + 1, s =>
+    let (t, nn) := stripBang s
+    match t with
+    | '[' :: rest =>
+      match rest.getLast? with
+      | some ']' => (parseTy fuel rest.dropLast).map fun i => Ty.list i nn
+      | _ => none
+    | _ => some (.named t nn)
+
+def renderTy : Ty → Name
+  | .named b nn => b ++ (if nn then ['!'] else [])
+  | .list i nn => '[' :: renderTy i ++ [']'] ++ (if nn then ['!'] else [])
+
+/-- (Rust type, accessor) of a built-in scalar the generator supports -/
+def scalarInfo (b : Name) : Option (Name × Name) :=
+  if b == "Int".toList then some ("i64".toList, "as_i64".toList)
+  else if b == "String".toList then some ("&str".toList, "as_str".toList)
+  else if b == "Float".toList then some ("f64".toList, "as_f64".toList)
+  else if b == "Boolean".toList then some ("bool".toList, "as_bool".toList)
+  else none
+
+def optionOf (nn : Bool) (t : Name) : Name := if nn then t else "Option<".toList ++ t ++ ['>']
+
+/-- `trustfall_type_to_rust_type`; `none` = `unimplemented!`. -/
+def rustType : Ty → Option Name
+  | .named b nn => (scalarInfo b).map fun i => optionOf nn i.1
+  | .list i nn => (rustType i).map fun t => optionOf nn ("Vec<".toList ++ t ++ ['>'])
+
+/-- the part of `field_value_to_rust_type` after `#base.`; `none` = `unimplemented!`. -/
+def conversionSuffix : Ty → Option Name
+  | .named b nn =>
+    (scalarInfo b).map fun i =>
+      i.2 ++ "()".toList ++
+        (if nn then
+          ".expect(\"unexpected null or other incorrect datatype for Trustfall type '".toList
+            ++ renderTy (.named b nn) ++ "'\")".toList
+         else [])
+  | .list i nn =>
+    (conversionSuffix i).map fun inner =>
+      let innerTokens := "|value| value.".toList ++ inner
+      if nn then
+        "as_slice().expect(\"expected a list-typed value but did not get a list\").iter().map(".toList
+          ++ innerTokens ++ ").collect()".toList
+      else
+        "as_slice().map(|slice| slice.iter().map(".toList ++ innerTokens ++ ").collect())".toList
+
+/-- one emitted binding; `expectMsg` is the message built by the caller's `expect_msg_fn`. -/
+def paramStatement (expectMsg : Name) (p : Param) : Option Name := do
+  let ty ← parseTy (p.ty.length + 1) p.ty
+  let rt ← rustType ty
+  let conv ← conversionSuffix ty
+  pure ("let ".toList ++ paramIdent p.name ++ ": ".toList ++ rt ++ " = parameters.get(\"".toList ++ p.name
+    ++ "\").expect(\"".toList ++ expectMsg ++ "\").".toList ++ conv)
+
+def edgeExpectMsg (typeName edgeName paramName : Name) : Name :=
+  "failed to find parameter '".toList ++ paramName ++ "' for edge '".toList ++ edgeName
+    ++ "' on type '".toList ++ typeName ++ "'".toList
+
+def entryExpectMsg (entry paramName : Name) : Name :=
+  "failed to find parameter '".toList ++ paramName ++ "' when resolving '".toList ++ entry
+    ++ "' starting vertices".toList
+
+/-- every binding the generator emits for a schema (edges of vertex types, then entry points), in no
+particular order; `none` entries = the generator would have panicked there. -/
+def emittedParamStatements (S : Schema) : List (Option Name) :=
+  (S.types.flatMap fun t => t.edges.flatMap fun e =>
+      e.params.map fun p => paramStatement (edgeExpectMsg t.name e.name p.name) p)
+  ++ S.entrypoints.flatMap fun e => e.params.map fun p => paramStatement (entryExpectMsg e.name p.name) p
+
 end TF.Stubgen
